@@ -451,8 +451,8 @@ Lemma M_map vl k e : W k -> W e -> M (AMap vl k e).
 Proof.
   intros HWk HWe c req v p Hwf Hwt _. cbn [gen]. cbn [wf_att] in Hwf.
   apply andb_prop in Hwf. destruct Hwf as [Hwf Hwe]. apply andb_prop in Hwf. destruct Hwf as [Hok Hwk].
-  fold (vattr E (map_ctx c) true k (p ++ [PKey])). fold (vattr E (map_ctx c) true e (p ++ [PVal])).
-  set (ck := vattr E (map_ctx c) true k (p ++ [PKey])). set (cv := vattr E (map_ctx c) true e (p ++ [PVal])).
+  fold (vattr E (map_ctx c k) true k (p ++ [PKey])). fold (vattr E (map_ctx c e) true e (p ++ [PVal])).
+  set (ck := vattr E (map_ctx c k) true k (p ++ [PKey])). set (cv := vattr E (map_ctx c e) true e (p ++ [PVal])).
   inversion Hwt as [c' r' a' Hn| | | |c' r' vl' k' e' l Hall| |]; subst.
   - cbn [Model.goa_viol]. rewrite <- (app_nil_r (kvg _ _ _)). apply exec_seq.
     + rewrite own_collection by assumption. now rewrite fires_list_nil_map.
@@ -460,8 +460,8 @@ Proof.
   - cbn [Model.goa_viol]. apply exec_seq.
     + rewrite own_collection by assumption. now rewrite fires_list_goa by discriminate.
     + assert (Hel : forall kv, In kv l ->
-                exec ck (fst kv) = Some (goa_viol (map_ctx c) k (fst kv) (p ++ [PKey])) /\
-                exec cv (snd kv) = Some (goa_viol (map_ctx c) e (snd kv) (p ++ [PVal]))).
+                exec ck (fst kv) = Some (goa_viol (map_ctx c k) k (fst kv) (p ++ [PKey])) /\
+                exec cv (snd kv) = Some (goa_viol (map_ctx c e) e (snd kv) (p ++ [PVal]))).
       { intros kv Hx. destruct (Hall kv Hx) as [H1 H2]. split; [apply HWk|apply HWe]; assumption. }
       destruct (is_empty ck && is_empty cv) eqn:Ee.
       * apply andb_prop in Ee. destruct Ee as [Ek Ev].
@@ -470,7 +470,7 @@ Proof.
         rewrite (is_empty_exec fmt_ok pat_ok callI ck _ Ek) in H1. rewrite (is_empty_exec fmt_ok pat_ok callI cv _ Ev) in H2.
         injection H1 as <-. injection H2 as <-. reflexivity.
       * cbn [Model.exec].
-        apply (all_pairs_ok (exec ck) (exec cv) (fun x => goa_viol (map_ctx c) k x (p ++ [PKey])) (fun x => goa_viol (map_ctx c) e x (p ++ [PVal]))).
+        apply (all_pairs_ok (exec ck) (exec cv) (fun x => goa_viol (map_ctx c k) k x (p ++ [PKey])) (fun x => goa_viol (map_ctx c e) e x (p ++ [PVal]))).
         exact Hel.
 Qed.
 
@@ -733,6 +733,9 @@ Definition Irel (a : att) : Prop :=
   forall c rp v p, c_ignreq c = false -> wf_att E a = true -> excl_ok E a = true -> pm_ok rp a = true ->
     (rp = true /\ v = VNull) \/ (goa_viol c a v p = [] <-> spec_viol a v p = []).
 
+Lemma map_ctx_ignreq c a : c_ignreq (map_ctx c a) = c_ignreq c.
+Proof. unfold map_ctx. destruct map_keeps_user_ctx; [destruct a|]; reflexivity. Qed.
+
 Lemma elem_ctx_ignreq c e : c_ignreq (elem_ctx c e) = c_ignreq c.
 Proof. unfold elem_ctx. destruct (c_ptr c && is_prim e); reflexivity. Qed.
 
@@ -779,8 +782,8 @@ Proof.
   - right. cbn [Model.goa_viol Model.spec_viol]. rewrite (kws_goa_eq vl He1).
     apply app_nil_iff; [tauto|]. apply flat_map_nil_iff. intros kv Hx.
     apply app_nil_iff.
-    + destruct (IHk (map_ctx c) false (fst kv) (p ++ [PKey]) Hi Hwk He2 Hp2) as [[Hf _]|H]; [discriminate|exact H].
-    + destruct (IHe (map_ctx c) false (snd kv) (p ++ [PVal]) Hi Hwe He3 Hp3) as [[Hf _]|H]; [discriminate|exact H].
+    + destruct (IHk (map_ctx c k) false (fst kv) (p ++ [PKey]) (eq_trans (map_ctx_ignreq c k) Hi) Hwk He2 Hp2) as [[Hf _]|H]; [discriminate|exact H].
+    + destruct (IHe (map_ctx c e) false (snd kv) (p ++ [PVal]) (eq_trans (map_ctx_ignreq c e) Hi) Hwe He3 Hp3) as [[Hf _]|H]; [discriminate|exact H].
 Qed.
 
 Lemma Irel_user id : Irel (AUser id).
@@ -1033,8 +1036,8 @@ Proof.
     apply (proj1 (IHe (elem_ctx c e) x (p ++ [PElem]))). intros id y Hy. apply Hc. pose proof (vdepth_arr_in x l Hx). lia.
   - apply Ext_weaken; [|reflexivity]. intros c v p _ Hc. destruct v; try reflexivity.
     cbn [Model.goa_viol]. f_equal. apply flat_map_ext_in. intros kv Hx. destruct (vdepth_map_in kv l Hx) as [H1 H2]. f_equal.
-    + apply (proj1 (IHk (map_ctx c) (fst kv) (p ++ [PKey]))). intros id y Hy. apply Hc. lia.
-    + apply (proj1 (IHe (map_ctx c) (snd kv) (p ++ [PVal]))). intros id y Hy. apply Hc. lia.
+    + apply (proj1 (IHk (map_ctx c k) (fst kv) (p ++ [PKey]))). intros id y Hy. apply Hc. lia.
+    + apply (proj1 (IHe (map_ctx c e) (snd kv) (p ++ [PVal]))). intros id y Hy. apply Hc. lia.
   - apply Ext_weaken; [|reflexivity]. intros c v p _ Hc. destruct v; try reflexivity.
     rewrite !goa_viol_obj. f_equal.
     assert (Hl : forall x, In x l -> forall id y, vdepth y <= vdepth x -> call1 id y = call2 id y).
